@@ -234,6 +234,8 @@ def next_ops(model, plan, depth):
                 continue
             for form, ps in pred_choices(order, plan.get("ins_max_preds", 2)):
                 ops.append(("ins", w, form, ps))
+            if order:
+                ops.append(("ins", w, "empty", ()))  # predecessors=[]: an independent branch, not "all current sinks"
     if "ins_none" in plan["ops"]:
         for w in plan["menu"]:
             if len(MENU[w]) <= room:
@@ -272,7 +274,7 @@ def fmt_op(op):
     if k == "rep":
         return "replace_task(t%d, %s)" % (op[1], op[2])
     if k == "ins":
-        p = {"none": "", "one": ", t%d" % op[3][0] if op[3] else "", "list": ", [%s]" % ",".join("t%d" % x for x in op[3])}[op[2]]
+        p = {"none": "", "empty": ", []", "one": ", t%d" % op[3][0] if op[3] else "", "list": ", [%s]" % ",".join("t%d" % x for x in op[3])}[op[2]]
         return "insert_workflow(%s%s)" % (op[1], p)
     if k == "ctor":
         return "WorkflowBuilder(Workflow(wb), tasks=[%s])" % op[1]
@@ -374,6 +376,8 @@ class Impl:
         def pr(form, ps):
             if form == "none":
                 return None
+            if form == "empty":
+                return []
             if form == "one":
                 return cur[ps[0]]
             return [cur[p] for p in ps]
